@@ -8,6 +8,7 @@ closure, dynamic name) x (object class) goes through every applicable access pat
 back through a getter of the declaring class (no effect on denial); every (declared type x value
 kind) pair goes through four property-store paths, four parameter boundaries and two return
 boundaries.  Model and rule are evaluated in Coq on the same probes."""
+import itertools
 import json
 import subprocess
 import vcheck
@@ -364,6 +365,7 @@ def type_script_and_probes(only=None):
                  "public function pm(%s $x) { return 1; } public static function ps(%s $x) { return 1; } "
                  "public function rm($v): %s { return $v; } }" % (ti, tn, tn, tn, tn))
         L.append("class Q%d { public function __construct(%s $x) {} }" % (ti, tn))
+        L.append("class QP%d { public function __construct(public %s $x) {} } class QR%d { public function __construct(private %s $x, public $y = 0) {} }" % (ti, tn, ti, tn))
         L.append("class X%d { public static %s $sp; public static function sr($v): %s { return $v; } }" % (ti, tn, tn))
         L.append("function pv%d(%s ...$xs) { return 1; } function pb%d(%s &$x) { return 1; }" % (ti, tn, ti, tn))
         L.append("$pc%d = function(%s $x) { return 1; }; $rc%d = function($v): %s { return $v; };" % (ti, tn, ti, tn))
@@ -395,6 +397,16 @@ def type_script_and_probes(only=None):
                 for rep in (0, 1):
                     L.append('try { %s echo "A\\n"; } catch (Throwable $e) { echo "D\\n"; }' % forms[label])
                     probes.append({"site": label, "b": bc, "ty": tn, "tyc": tc, "val": vn, "valc": vc})
+    # ---- constructor-PROMOTED typed parameters (public / private), positional and by name
+    for ti, (tn, tc) in enumerate(TYPES):
+        for vn, vsrc, vc in VALUES:
+            for via, stmt in (("promoted", "$q = new QP%d(%s);" % (ti, vsrc)), ("promoted-named", "$q = new QP%d(x: %s);" % (ti, vsrc)),
+                              ("promoted-private", "$q = new QR%d(%s, 1);" % (ti, vsrc)), ("promoted-private-named", "$q = new QR%d(y: 1, x: %s);" % (ti, vsrc))):
+                if only and only != ("param:constructor", tn, vn):
+                    continue
+                for rep in (0, 1):
+                    L.append('try { %s echo "A\\n"; } catch (Throwable $e) { echo "D\\n"; }' % stmt)
+                    probes.append({"site": "param:constructor", "b": "BParam", "ty": tn, "tyc": tc, "val": vn, "valc": vc, "via": via, "prop_type": tn})
     # ---- the return boundary when the returned expression is a typed PROPERTY (one-line accessors): property type
     # x return type x stored value; the value is first stored through the property's own boundary (a rejected store
     # prints S: the cell does not apply), then returned through `: <return type>` — by `return $this->p;`,
@@ -420,6 +432,30 @@ def type_script_and_probes(only=None):
                         L.append('%s if ($k === null) { echo "S\\n"; } else { try { %s echo "A\\n"; } catch (Throwable $e) { echo "D\\n"; } }' % (store, call))
                         probes.append({"site": label, "b": "BReturnMethod", "ty": tn, "tyc": tc, "val": vn, "valc": vc,
                                        "via": via, "prop_type": ptn or "untyped"})
+    # ---- two unrelated classes sharing a SHORT name: the rest of the script is in namespace Other\Ns, which declares its
+    # own A, B (extends its A) and D; their instances go to the class-typed boundaries declared above in the global
+    # namespace (types A, I, ?A, A|string, ?I name the GLOBAL classes) and must be refused, the global \A / \B accepted
+    L.append("namespace Other\\Ns;\nclass A {} class B extends A {} class D {}")
+    nsvals = [("nsA", "new A()", '(VObj "Other\\Ns\\A")'), ("nsB", "new B()", '(VObj "Other\\Ns\\B")'), ("nsD", "new D()", '(VObj "Other\\Ns\\D")'),
+              ("A", "new \\A()", '(VObj "A")'), ("B", "new \\B()", '(VObj "B")'), ("D", "new \\D()", '(VObj "D")')]
+    for ti, (tn, tc) in enumerate(TYPES):
+        if "A" not in tn and "I" not in tn:
+            continue
+        for vn, vsrc, vc in nsvals:
+            forms = [("prop:arrow", "BProp", "$k = new \\K%d(); $k->p = %s;" % (ti, vsrc)),
+                     ("prop:this", "BProp", "$k = new \\K%d(); $k->setp(%s);" % (ti, vsrc)),
+                     ("param:function", "BParam", "\\pf%d(%s);" % (ti, vsrc)),
+                     ("param:method", "BParam", "$k = new \\K%d(); $k->pm(%s);" % (ti, vsrc)),
+                     ("param:static-method", "BParam", "\\K%d::ps(%s);" % (ti, vsrc)),
+                     ("param:constructor", "BParam", "$q = new \\Q%d(%s);" % (ti, vsrc)),
+                     ("return:function", "BReturn", "\\rf%d(%s);" % (ti, vsrc)),
+                     ("return:method", "BReturnMethod", "$k = new \\K%d(); $k->rm(%s);" % (ti, vsrc))]
+            for label, bc, stmt in forms:
+                if only and only != (label, tn, vn):
+                    continue
+                for rep in (0, 1):
+                    L.append('try { %s echo "A\\n"; } catch (\\Throwable $e) { echo "D\\n"; }' % stmt)
+                    probes.append({"site": label, "b": bc, "ty": tn, "tyc": tc, "val": vn, "valc": vc, "via": "from-namespace", "prop_type": "-"})
     return "\n".join(L) + "\n", probes
 
 
@@ -454,6 +490,29 @@ def inst_case(rng):
             parents_ok.append(name)
         classes.append((name, par, abstract, impls, ms))
     return inst_build(classes, ifaces)
+
+
+def inst_deep_cases():
+    """an interface implemented by an abstract class two or three levels above the concrete leaf: top abstract class
+    implements I1 (f) or I2 extends I1 (f, g); 1-2 intermediate abstract classes that declare nothing / f abstract /
+    f with a body; the leaf with every subset of {f, g}; also the interface on the first intermediate class"""
+    cases = []
+    for two in (False, True):
+        ifaces = [("I1", [], ["f"])] + ([("I2", ["I1"], ["g"])] if two else [])
+        top_if = "I2" if two else "I1"
+        for nmid in (1, 2):
+            for mids in itertools.product(["none", "abs", "body"], repeat=nmid):
+                for where in (0, 1):                     # which class of the chain carries `implements`
+                    for leaf in ([], ["f"], ["g"], ["f", "g"]):
+                        if not two and "g" in leaf:
+                            continue
+                        classes = [("C1", None, True, [top_if] if where == 0 else [], [])]
+                        for k, mk in enumerate(mids):
+                            ms = [] if mk == "none" else [("f", mk == "abs")]
+                            classes.append(("C%d" % (k + 2), "C%d" % (k + 1), True, [top_if] if where == k + 1 else [], ms))
+                        classes.append(("C%d" % (nmid + 2), "C%d" % (nmid + 1), False, [], [(x, False) for x in leaf]))
+                        cases.append(inst_build(classes, ifaces))
+    return cases
 
 
 def inst_build(classes, ifaces):
@@ -532,7 +591,7 @@ def main(ck):
         hs = shapes(rng)
         vis = [vis_script_and_probes(h) for h in hs]
         tsrc, tprobes = type_script_and_probes()
-        icases = [inst_case(rng) for _ in range(400 if ck.tier == "quick" else 6000)]
+        icases = inst_deep_cases() + [inst_case(rng) for _ in range(400 if ck.tier == "quick" else 6000)]
     srcs = [v[0] for v in vis] + [tsrc] + [c["src"] for c in icases]
     outs, rc, err = run_impl(binary, srcs)
     if len(outs) != len(srcs):
